@@ -158,12 +158,23 @@ def scan_forbidden(files, allow_partial_in=()):
     return hits
 
 
+SCOPE_RE = re.compile(r"^[ \t]*(?:(namespace|section|end)\b[ \t]*([\w.]*)|(?:@\[[^\]]*\]\s*)?(?:protected\s+|private\s+)?theorem\s+([A-Za-z_][\w'.]*))", re.M)
+
+
 def theorems_in(path):
-    """qualified theorem names declared in a Props file (single top-level namespace supported)."""
+    """qualified theorem names declared in a Props file; follows namespace/section/end nesting"""
     src = strip_comments(open(path).read())
-    ns = NS_RE.search(src)
-    pre = (ns.group(1) + ".") if ns else ""
-    return [pre + m.group(1) for m in THM_RE.finditer(src)]
+    stack = []   # (kind, name)
+    out = []
+    for m in SCOPE_RE.finditer(src):
+        kw, name, thm = m.group(1), m.group(2), m.group(3)
+        if thm:
+            out.append(".".join([n for k, n in stack if k == "namespace"] + [thm]))
+        elif kw in ("namespace", "section"):
+            stack.append((kw, name))
+        elif kw == "end" and stack:
+            stack.pop()
+    return out
 
 
 def module_deps(modname, seen=None):
@@ -275,7 +286,7 @@ def _prune_cache(keep):
         ents = sorted((os.path.getmtime(os.path.join(CACHE, d)), d) for d in os.listdir(CACHE) if d != keep and not d.endswith(".lock"))
         old = [d for t, d in ents if now - t > 3 * 3600]
         recent = [d for t, d in ents if now - t <= 3 * 3600]
-        for d in old + recent[:-12]:
+        for d in old + [d for d in recent[:-12] if now - os.path.getmtime(os.path.join(CACHE, d)) > 2700]:
             shutil.rmtree(os.path.join(CACHE, d), ignore_errors=True)
             try:
                 os.unlink(os.path.join(CACHE, d + ".lock"))
